@@ -132,6 +132,7 @@ type c10Env struct {
 	udpPort2 int
 	blocker  net.PacketConn // holds the second UDP port so that the first start cannot bind it
 	udpStop  chan struct{}
+	card     *vLiveCard // lancero: the card in use
 }
 
 func c10Census() map[string]int {
@@ -210,6 +211,15 @@ func (e *c10Env) afterStop(when string) *vVerdict {
 	if st := e.ds.GetState(); st != Inactive {
 		v := vFailf("not-inactive", "%s: all Stop calls have returned but the source state is %d (0=Inactive 1=Starting 2=Active 3=Stopping)", when, st)
 		return &v
+	}
+	if e.card != nil {
+		e.card.mu.Lock()
+		adap, coll := e.card.adapOn, e.card.collOn
+		e.card.mu.Unlock()
+		if adap || coll {
+			v := vFailf("card-still-running", "%s: all Stop calls have returned but the Lancero card has not been switched off (adapter running %v, collector running %v)", when, adap, coll)
+			return &v
+		}
 	}
 	if e.ds.WritingIsActive() {
 		v := vFailf("writing-still-active", "%s: all Stop calls have returned but writing is still reported active (%s)", when, e.ds.ComputeWritingState().FilenamePattern)
@@ -407,8 +417,12 @@ func c10Run(c c10Case) (v vVerdict) {
 			if c.FailBy == "stopcollector" {
 				card.stopCollFaultAt = 2
 			}
+			if c.FailBy == "slowstop" {
+				card.stopAdapterDelay = 40 * time.Millisecond // Stop may only return when the card has been switched off
+			}
 			ls.devices = map[int]*LanceroDevice{0: {devnum: 0, card: card}}
 			ls.ncards = 1
+			e.card = card
 			err := ls.Configure(&LanceroSourceConfig{FiberMask: 0xffff, ActiveCards: []int{0}, CardDelay: []int{1}, FirstRow: 1, ChanSepColumns: sep})
 			if err != nil && badSep { // refused already at configuration time: the client corrects it
 				badSep = false
@@ -959,6 +973,8 @@ func c10Gen(t *rapid.T) c10Case {
 		c.FailBy = "chansep"
 	} else if c.Source == "lancero" && rapid.Bool().Draw(t, "stopcollector") {
 		c.FailBy = "stopcollector" // the card's driver reports an error when the collector is stopped (once): the next start must still work
+	} else if c.Source == "lancero" {
+		c.FailBy = "slowstop" // the card takes 40 ms to stop its adapter: a start right after Stop has returned must still work
 	}
 	if c.Source == "udp" || c.Source == "udp2" {
 		c.Unwrap = rapid.SampledFrom([]int{0, 0, 1, 2, 3}).Draw(t, "unwrapopts")
@@ -967,14 +983,14 @@ func c10Gen(t *rapid.T) c10Case {
 	if c.Source == "abaco" || c.Source == "udp" || c.Source == "udp2" || c.Source == "lancero" || c.Source == "roach" {
 		nrounds = rapid.IntRange(1, 2).Draw(t, "rounds2")
 	}
-	if c.FailBy == "stopcollector" {
-		nrounds = 2 // the same card is started again after the stop that met the driver error
+	if c.FailBy == "stopcollector" || c.FailBy == "slowstop" {
+		nrounds = 2 // the same card is started again after the stop that met the driver error / took long
 	}
 	for r := 0; r < nrounds; r++ {
 		if c.Source == "scripted" && rapid.IntRange(0, 3).Draw(t, "fail") == 0 {
 			c.Ops = append(c.Ops, c10Op{Op: "failnext", Kind: rapid.SampledFrom([]string{"sample", "run"}).Draw(t, "failkind")}, c10Op{Op: "start"})
 		}
-		if rapid.IntRange(0, 3).Draw(t, "reconf") == 0 && !(c.FailBy == "stopcollector" && r > 0) {
+		if rapid.IntRange(0, 3).Draw(t, "reconf") == 0 && !((c.FailBy == "stopcollector" || c.FailBy == "slowstop") && r > 0) {
 			c.Ops = append(c.Ops, c10Op{Op: "reconf", N: rapid.IntRange(0, 5).Draw(t, "nch")})
 		}
 		c.Ops = append(c.Ops, c10Op{Op: "start"})
